@@ -18,15 +18,15 @@ PYTHONPATH="$WT" timeout 900 /venv/bin/python "$SRC/demo.py" >/tmp/wt/demo-$NAME
 PYTHONPATH="$WT" /venv/bin/python -m pytest -q -p no:cacheprovider -n ${NJOBS:-8} tests >/tmp/wt/tests-$NAME.log 2>&1; TESTS=$?
 TESTLINE="$(tail -1 /tmp/wt/tests-$NAME.log)"
 # run the check against the patched worktree
-( cd "$HERE" && VERIF_REPO="$WT" PYTHONPATH="$WT" ${TIER_ENV:-} ./check "$PID" >/tmp/wt/check-$NAME.log 2>&1 ); CHECK=$?
+( cd "$HERE" && VERIF_REPO="$WT" PYTHONPATH="$WT" ${TIER_ENV:-} ./check "${CHECK_ID:-$PID}" >/tmp/wt/check-$NAME.log 2>&1 ); CHECK=$?
 git checkout -q -- .
 PYTHONPATH="$WT" timeout 900 /venv/bin/python "$SRC/demo.py" >/tmp/wt/demo0-$NAME.log 2>&1; DEMO_WITHOUT=$?
 mkdir -p "$OUT"
 cp "$SRC/patch.diff" "$OUT/patch.diff"; cp "$SRC/demo.py" "$OUT/demo.py"
 VIOL="$(grep -A1 '^VIOLATION' /tmp/wt/check-$NAME.log | grep 'sub-check' | sort | uniq -c | head -5 | tr '\n' ';')"
-/venv/bin/python - "$SRC/meta.json" "$OUT/meta.json" "$PID" "$DEMO_WITH" "$TESTS" "$TESTLINE" "$DEMO_WITHOUT" "$CHECK" "$VIOL" <<'PY'
+/venv/bin/python - "$SRC/meta.json" "$OUT/meta.json" "$PID" "$DEMO_WITH" "$TESTS" "$TESTLINE" "$DEMO_WITHOUT" "$CHECK" "$VIOL" "${CHECK_ID:-$PID}" <<'PY'
 import json, sys
-src, out, pid, dw, tests, tl, dwo, chk, viol = sys.argv[1:]
+src, out, pid, dw, tests, tl, dwo, chk, viol, chk_id = sys.argv[1:]
 try: meta = json.load(open(src))
 except Exception: meta = {}
 meta["property"] = pid
@@ -34,11 +34,12 @@ meta["confirmed"] = {
   "how": "tools/verify_seed.sh in a scratch worktree of /repo HEAD (removed afterwards)",
   "demo_exit_with_patch": int(dw), "demo_exit_without_patch": int(dwo),
   "test_suite_exit_with_patch": int(tests), "test_suite_summary": tl,
-  "check_cmd": f"VERIF_REPO=<worktree> PYTHONPATH=<worktree> ./check {pid}",
+  "check_cmd": f"VERIF_REPO=<worktree> PYTHONPATH=<worktree> ./check {chk_id}",
   "check_exit_with_patch": int(chk), "check_violations": viol,
 }
 meta["kept"] = int(dw) != 0 and int(dwo) == 0 and int(tests) == 0
 meta["caught_by_quick_check"] = int(chk) == 1
+meta["checked_with"] = chk_id
 json.dump(meta, open(out, "w"), indent=1)
 print(out, "kept" if meta["kept"] else "REJECTED", "caught" if meta["caught_by_quick_check"] else f"NOT CAUGHT (exit {chk})", tl)
 PY
